@@ -174,7 +174,7 @@ def expand_model(s):
 
 class C05(Prop):
     pid = "C05"
-    generators = []
+    generators = ["onbusy", "jobapi"]
     coq_targets = ["Run/EvalC05.vo"]
     bins = ["h_cli", "simchild"]
     level = "proof"
@@ -205,7 +205,35 @@ class C05(Prop):
             cc["id"] = k
             cases.append(cc)
         cases += [gen_case(r, 100 + i, deep) for i in range(n)]
-        return confirm_realtime(lambda cs, procs: self.judge(cs, procs, c.rule), cases)
+        c = confirm_realtime(lambda cs, procs: self.judge(cs, procs, c.rule), cases)
+        if (tier != "quick" or deep) and not c.errors:
+            c.absorb(self.racy(40))
+        return c
+
+    def racy(self, n):
+        """the command ends by itself while the handler's --delay-run sleep is in progress: the in-job query then sees a stale
+        'running' state and the restart it queues is processed after the process-end (or before it: select! picks at random).
+        Judged by the freshness clause alone; not re-run (the interleaving is random by design)."""
+        c = Corr()
+        cases = [{"id": 5000 + i, "label": "-r+delay-run", "args": ["-r", "--delay-run=300ms"], "child_script": "exit_after=400,on_term=exit:0",
+                  "events": [{"k": "change", "at_ms": 500}], "wait_ms": 1300} for i in range(n)]
+        try:
+            obs = run_parallel(cases, "c05racy", procs=8)
+        except RuntimeError as e:
+            c.errors.append(str(e))
+            return c
+        for case, o in zip(cases, obs):
+            c.evaluations += 1
+            c.count("racy:-r+delay-run")
+            starts = [l["t"] for l in o["child_log"] if l["ev"] == "start"]
+            chg = [x["t"] for x in o["sent"] if x["k"] == "change"]
+            if chg and not any(t > chg[-1] for t in starts):
+                c.failing.append({"case": {"id": case["id"], "args": case["args"], "child": case["child_script"], "events": [500]},
+                                  "impl": [(l["ev"], l["t"] - o["t0"]) for l in o["child_log"]],
+                                  "clause": "C05_freshness_restart: the last change was not followed by a run (the command ended at the moment of the decision)"})
+            else:
+                c.validated += 1
+        return c
 
     def judge(self, cases, procs, rule):
         c = Corr()
@@ -228,9 +256,9 @@ class C05(Prop):
                     if first and not case["postpone"]:
                         first = False      # the start-up event is part of boot
                         continue
-                    es.append("true")
+                    es.append("0")
                 elif k == "exit":
-                    es.append("false")
+                    es.append("1")
             def optn(x):
                 return f"(Some {SIGNUM[x]})" if x else "None"
             terms.append(f"(eval_onbusy {case['mode']} {str(case['restart']).lower()} {optn(case['signal'])} {optn(case['stop'])} "
